@@ -226,7 +226,7 @@ VaListClass == [x \in {"x86_64-sysv", "riscv64"} |-> <<"l">>] @@ [x \in {"aarch6
 VaListAArch64 == SU(FALSE, FALSE, <<MEM(SC("ptr"), TRUE, -1, 0), MEM(SC("ptr"), TRUE, -1, 0), MEM(SC("ptr"), TRUE, -1, 0),
                                     MEM(SC("int"), TRUE, -1, 0), MEM(SC("int"), TRUE, -1, 0)>>)
 
-AInput == IF Mode \in {"judge", "sig"} THEN ndJsonDeserialize(IOEnv.ABI_IN) ELSE <<>>
+AInput == IF Mode \in {"judge", "sig", "ident"} THEN ndJsonDeserialize(IOEnv.ABI_IN) ELSE <<>>
 
 SigScalars == {"bool", "char", "schar", "uchar", "short", "ushort", "int", "uint", "long", "ulong", "llong", "ullong", "float", "double", "ptr"}
 
@@ -302,8 +302,20 @@ JudgeOne ==
   /\ phase' = "done"
   /\ UNCHANGED <<st, ms, outs, pool, want, pick>>
 
+(* "ident": one signature `A f(A)` per input aggregate, so that every aggregate is described at least once *)
+IdentOne ==
+  /\ Mode = "ident" /\ phase = "idle"
+  /\ PrintT("VCASE " \o ToJson(SigCase))
+  /\ phase' = "done"
+  /\ UNCHANGED <<st, ms, outs, pool, want, pick>>
+
 AInit ==
-  IF Mode \in {"judge", "sig"}
+  IF Mode = "ident"
+  THEN /\ outs = <<>> /\ pick = "" /\ phase = "idle" /\ want = 0 /\ pool = <<>>
+       /\ LET n == Len(AInput) IN \E i \in 1..n :
+            /\ st = [ret |-> [k |-> "agg", i |-> i], va |-> FALSE, nagg |-> n]
+            /\ ms = <<[k |-> "agg", i |-> i]>>
+  ELSE IF Mode \in {"judge", "sig"}
   THEN /\ ms = <<>> /\ outs = <<>> /\ pick = "" /\ phase = "idle" /\ want = 0
        /\ LET inp == AInput IN
           IF Mode = "judge" THEN \E i \in 1..Len(inp) : pool = <<inp[i]>> /\ st = Acc0(FALSE, FALSE)
@@ -311,6 +323,7 @@ AInit ==
   ELSE Init
 
 ANext == IF Mode = "judge" THEN JudgeOne
+         ELSE IF Mode = "ident" THEN IdentOne
          ELSE IF Mode = "sig" THEN SigBegin \/ SigPick \/ SigAdd \/ SigNext
          ELSE Next
 
